@@ -3,6 +3,7 @@
 //! Drives the real versatiles-rs crates; writes cases.txt / impl.txt / stats.json into DIR.
 mod common;
 mod c20;
+mod memsrc;
 
 use common::Args;
 use std::path::PathBuf;
